@@ -1264,6 +1264,25 @@ func realCase(r *prng.R, id string) proto.Case {
 	return proto.Case{ID: id, Ops: ops}
 }
 
+var noDocKinds = []string{"comment", "dashes", "tilde", "null", "blank", "empty", "dashes-comment", "broken", "valid-pp", "valid-gw"}
+
+// noDocCase: a valid configuration (probe flow, optionally a quota) next to a file that holds no YAML document —
+// every line commented out, `---`, `~`, `null`, blank, empty — or foreign / broken content, in every directory the
+// loader reads: flows, quotas, path_params, and the gateway config.
+func noDocCase(r *prng.R, id, dir, kind string) proto.Case {
+	ops := append([]string{}, vocabLines...)
+	if r.Chance(50) {
+		ops = append(ops, fmt.Sprintf("quota q1 url=verif.test/* %s", validStrat(r).words()))
+	}
+	ops = append(ops, baseFlow("f1")...)
+	ops = append(ops, fmt.Sprintf("rawfile %s %s", dir, kind))
+	if r.Chance(20) {
+		ops = append(ops, fmt.Sprintf("rawfile %s %s", prng.Pick(r, []string{"path_params", "gateway"}), prng.Pick(r, noDocKinds)))
+	}
+	ops = append(ops, "load", "txn dir=req o=f1/A/req=n:a,f1/B/req=n:a", rawTxn(r, false))
+	return proto.Case{ID: id, Ops: ops}
+}
+
 func fuzzCase(r *prng.R, id string) proto.Case {
 	ops := append([]string{}, vocabLines...)
 	ops = append(ops, fmt.Sprintf("quota q1 url=%s %s", prng.Pick(r, []string{"verif.test/*", "verif.test/x", "*"}), validStrat(r).words()))
@@ -1377,6 +1396,17 @@ func gen(r *prng.R, f proto.Flags, emit func(proto.Case)) {
 	}
 	for i := 0; i < 3*nF; i++ {
 		emit(realCase(r.Fork(), next("h")))
+	}
+	nDoc := mul
+	if thorough {
+		nDoc = 6 * mul
+	}
+	for rep := 0; rep < nDoc; rep++ {
+		for _, d := range []string{"flows", "quotas", "path_params", "gateway"} {
+			for _, k := range noDocKinds {
+				emit(noDocCase(r.Fork(), next("n-"+d+"-"+k+"-"), d, k))
+			}
+		}
 	}
 	consts := []string{"a", "b"}
 	if thorough {
